@@ -27,6 +27,7 @@ fn main() {
     }
     match id.as_str() {
         "C13" => corr::c13::run(&mut ctx),
+        "C15" => corr::c15::run(&mut ctx),
         other => { eprintln!("unknown property {}", other); std::process::exit(2); },
     }
     ctx.finish();
